@@ -1104,7 +1104,19 @@ class FnRun(FnAnalysis):
 
     def default_result(self, st, tag, dcls, dty, name, args):
         if dcls in INT_BOUNDS and dcls != "bool":
-            return self.unknown_int(tag, dcls, True)
+            v = self.unknown_int(tag, dcls, True)
+            # return-interval summary of a crate function (e.g. utils::read_usize returns a widened u32)
+            rr = self.prog.ret_ranges.get(name)
+            if rr and v:
+                lo, hi = max(rr[0], v[2]), min(rr[1], v[3])
+                if lo <= hi and (lo, hi) != (v[2], v[3]):
+                    a = list(v[1].atoms())[0]
+                    m = self.atom_meta[a]
+                    m["lo"], m["hi"] = lo, hi
+                    if lo >= 0 and hi < 2 ** 63:
+                        m["desc"] = "src%d" % max(8, 1 << (max(hi, 1).bit_length() - 1).bit_length()) if m["taint"] else m["desc"]
+                    v = self.int_of_atom(a)
+            return v
         if is_u8_seq(dcls) and dcls.startswith("&"):
             sid = self.new_slice(st, tag, None, 0, frozenset(), None, "ret(%s)" % name.rsplit("::", 1)[-1])
             return ("slice", sid)
@@ -1219,6 +1231,15 @@ class FnRun(FnAnalysis):
             return [(t["t"], st)]
         if k == "Drop":
             return [(t["t"], st)]
+        if k == "Return" and self.collect:
+            rv = st.val.get("_0")
+            if rv and rv[0] == "int":
+                rv = self.refresh(st, rv)
+                lo, hi = rv[2], rv[3]
+            else:
+                lo, hi = -INF, INF
+            cur = getattr(self, "ret_range", None)
+            self.ret_range = (lo, hi) if cur is None else (min(cur[0], lo), max(cur[1], hi))
         if k in ("Return", "Unreachable", "Resume", "Terminate", "TailCall"):
             return []
         if k == "SwitchInt":
@@ -1429,6 +1450,7 @@ class FnRun(FnAnalysis):
         # final pass: collect sites with the fixpoint states
         self.collect = True
         self.sites = {}
+        self.ret_range = None
         for bi in sorted(entry):
             st = entry[bi].copy()
             try:
@@ -1559,6 +1581,7 @@ class Program:
         self.facts = facts
         self.runs = {}
         self.requires = {}
+        self.ret_ranges = {}
         for name, ms in facts.mir.items():
             for m in ms:
                 if "::tests::" in name or name.startswith("tests::") or "::test::" in name:
@@ -1579,6 +1602,10 @@ class Program:
                 # only private helpers are summarised: their unproved constant needs move to the callers
                 if req != self.requires.get(n, {}):
                     self.requires[n] = req
+                    changed = True
+                rr = getattr(r, "ret_range", None)
+                if rr is not None and (rr[0] > -INF or rr[1] < INF) and self.ret_ranges.get(n) != rr:
+                    self.ret_ranges[n] = rr
                     changed = True
             if not changed:
                 break
